@@ -5,7 +5,7 @@
    particle named is zero" holds for the cells of C15's model (LIKE chains
    included: the log of a LIKE cell is the log of the card it stands for
    followed by the BUT entries, C15_keywords_later_wins). *)
-From Coq Require Import List NArith ZArith Bool String Ascii Reals.
+From Coq Require Import List NArith ZArith Bool String Ascii Reals Lia.
 From T4V Require Import Base.Str Base.Scalar C15.Model C15.Proofs.
 From T4V Require C12.Model C12.Spec C12.ProofsCells C12.ProofsDeck.
 Import ListNotations.
@@ -140,4 +140,78 @@ Proof.
   assert (Hl : k_impl (upd kb ko) = (k_impl kb ++ k_impl ko)%list) by reflexivity.
   rewrite <- Hl in Hm. rewrite (finish_cell_imp RS e rank lat mid rho ast _ c m Hc Hm).
   rewrite Hz. split; intros H p Hp; specialize (H p Hp); rewrite imp_last_app in *; exact H.
+Qed.
+
+(* ---- the NOTE list: which LIKE cells are left out of the conversion ---- *)
+Lemma parse_cells_forall2 {T : Type} (SC : Scalar T) (e : env (T:=T)) tbl : forall todo rank cells,
+  parse_cells SC e tbl rank todo = Ok cells ->
+  Forall2 (fun kc kc' => fst kc = fst kc' /\
+             exists r, parse_one_cell SC (List.length tbl) e tbl r (latopt e (fst kc)) (snd kc)
+                       = Ok (snd kc')) todo cells.
+Proof.
+  induction todo as [|[k c] r IH]; intros rank cells H; cbn [parse_cells] in H.
+  - inversion H. constructor.
+  - destruct (parse_one_cell SC (List.length tbl) e tbl rank (latopt e k) c) as [x|] eqn:E; [|discriminate].
+    cbn [bind] in H. destruct (parse_cells SC e tbl (S rank) r) as [xs|] eqn:Er; [|discriminate].
+    cbn [bind] in H. inversion H; subst. constructor; [|exact (IH _ _ Er)].
+    cbn [fst snd]. split; [reflexivity|]. exists rank. exact E.
+Qed.
+
+Lemma forall2_keys {A B} (R : Z * A -> Z * B -> Prop) l1 l2 :
+  Forall2 (fun a b => fst a = fst b /\ R a b) l1 l2 -> map fst l1 = map fst l2.
+Proof. induction 1 as [|a b r1 r2 [Hk _] _ IH]; cbn; [reflexivity|now rewrite Hk, IH]. Qed.
+
+Lemma forall2_in_l {A B} (R : A -> B -> Prop) l1 l2 a :
+  Forall2 R l1 l2 -> In a l1 -> exists b, In b l2 /\ R a b.
+Proof.
+  induction 1 as [|x y r1 r2 Hxy _ IH]; intros Hi; [destruct Hi|].
+  destruct Hi as [<-|Hi]; [exists y; split; [left; reflexivity|exact Hxy]|].
+  destruct (IH Hi) as (b & Hb & HR). exists b. split; [right; exact Hb|exact HR].
+Qed.
+
+Lemma nodup_keys_fun {B} (l : list (Z * B)) k b1 b2 :
+  NoDup (map fst l) -> In (k, b1) l -> In (k, b2) l -> b1 = b2.
+Proof.
+  induction l as [|[k' b'] r IH]; cbn; intros Hn H1 H2; [destruct H1|].
+  inversion Hn as [|? ? Hnot Hn']; subst.
+  destruct H1 as [H1|H1]; destruct H2 as [H2|H2].
+  - congruence.
+  - inversion H1; subst. exfalso. apply Hnot. apply (in_map fst) in H2. exact H2.
+  - inversion H2; subst. exfalso. apply Hnot. apply (in_map fst) in H1. exact H1.
+  - exact (IH Hn' H1 H2).
+Qed.
+
+(* the cell number of a LIKE n BUT card is in the list of skipped cells (the
+   NOTE of the written file; no volume is written for it) iff, for every particle
+   named on the cards of the chain or in the BUT list, the last value — the BUT
+   list's if it names the particle, else the inherited one — is zero *)
+Theorem like_skipped_iff_linked (P : C12.Model.prims R) (e : env (T:=R)) tbl cells
+    k mat0 g0 o n d mx gx ox kb ko :
+  parse_all RS e tbl = Ok cells -> NoDup (map fst tbl) -> In (k, (mat0, g0, o)) tbl ->
+  search_like (lower g0) = Some n -> denotes tbl n d (mx, gx, ox) ->
+  sq_state false ox = false -> leads_colon o = false -> kw_head (tokenize o) ->
+  parse_kws RS e (tokenize ox) = Ok kb -> parse_kws RS e (tokenize o) = Ok ko ->
+  (k_impl kb ++ k_impl ko)%list <> [] ->
+  Forall (fun pv => 0 <= snd pv)%R (k_impl kb ++ k_impl ko)%list ->
+  (In k (skipped RS cells) <->
+   forall p, In p (map fst (k_impl kb ++ k_impl ko)%list) ->
+             match imp_last (k_impl ko) p with Some v => Some v | None => imp_last (k_impl kb) p end
+             = Some 0%R).
+Proof.
+  intros Hp Hnd Hin Hg Hd Hox Ho Hk Hb Hko Hne Hnn.
+  unfold parse_all in Hp.
+  pose proof (parse_cells_forall2 RS e tbl tbl 0 cells Hp) as HF.
+  pose proof (forall2_keys _ _ _ HF) as Hkeys.
+  destruct (forall2_in_l _ _ _ _ HF Hin) as ([k' c] & Hc & Hk' & (r & Hr)).
+  cbn [fst snd] in *. subst k'.
+  pose proof (like_importance_zero_iff_linked P e tbl (List.length tbl) r (latopt e k)
+                mat0 g0 o n d mx gx ox kb ko c Hg Hd (denotes_depth tbl n d _ Hd)
+                Hox Ho Hk Hb Hko Hr Hne Hnn) as Hz.
+  rewrite <- Hz. unfold skipped. rewrite in_map_iff. split.
+  - intros ([k2 c2] & Hk2 & Hf). cbn [fst] in Hk2. subst k2.
+    apply filter_In in Hf. destruct Hf as [Hi Hq]. cbn [snd] in Hq.
+    assert (c2 = c) by (apply (nodup_keys_fun cells k c2 c); [rewrite <- Hkeys; exact Hnd|exact Hi|exact Hc]).
+    subst c2. apply Reqb_true in Hq. exact Hq.
+  - intros H0. exists (k, c). split; [reflexivity|]. apply filter_In. split; [exact Hc|].
+    cbn [snd]. apply Reqb_true. exact H0.
 Qed.
